@@ -1,7 +1,7 @@
 import BarterModel.Driver.Common
 import BarterModel.Model.Backtest
 /-! Line-protocol driver for C20.
-Ops: `data k (i:p | R) ...` (`R` = `MarketStreamEvent::Reconnecting` marker, anywhere), `strat t:i:s:q ...` | `strat -`, `run n w`.
+Ops: `data_slow g k ...` (same as `data`, paced source), `data k (i:p | R) ...` (`R` = `MarketStreamEvent::Reconnecting` marker, anywhere), `strat t:i:s:q ...` | `strat -`, `run n w`.
 
 `model` runs every strategy parameterisation alone with `run` under a lazy and an eager action list
 (`schedActs`); for small systems it also builds the N machines, interleaves their action lists
@@ -70,6 +70,13 @@ def parsePlan (k : Nat) (toks : List String) : Option (List PlanItem) :=
   | ["-"] => some []
   | [] => none
   | _ => (toks.mapM (parseItem k)).map sortPlan
+
+/-- `data_slow g k e...` is `data k e...` served by a data source that waits `g` ms of tokio time
+before every event. How fast the source delivers is a scheduling matter (when `fwdMarket` is
+taken); the theorems hold for every schedule, so model and spec treat it exactly like `data`. -/
+def unpace : List String → Option (List String)
+  | "data_slow" :: g :: rest => if g.toNat?.isSome then some ("data" :: rest) else none
+  | toks => some toks
 
 def ids (l : List Nat) : String := " ".intercalate (l.map toString)
 
@@ -143,6 +150,9 @@ def runModel (s : St) (n : Nat) (res : List PlanRes) : List String :=
 def model : Drv St where
   init := ⟨0, [], [], none⟩
   step s toks :=
+    match unpace toks with
+    | none => (s, ["bad-op"])
+    | some toks =>
     match toks with
     | "data" :: k :: evs =>
       match k.toNat? with
@@ -178,6 +188,9 @@ def runSpec (s : St) (n : Nat) : List String :=
 def spec : Drv St where
   init := ⟨0, [], [], none⟩
   step s toks :=
+    match unpace toks with
+    | none => (s, ["bad-op"])
+    | some toks =>
     match toks with
     | "data" :: k :: evs =>
       match k.toNat? with
